@@ -75,6 +75,11 @@ func C14(seed uint64, run int) *spec.Spec {
 				y = 1000
 			}
 			fl.From = fmtYmd(y, r2.Range(1, 12), r2.Range(1, 28))
+			// a third of the floods go through another view (stream of its own): by-year or by-month queries cycling
+			// over the table's years - what is kept per queried year or month, or counted per call, is pushed as well
+			if r3 := NewRng(seed, 2014+uint64(j), run); r3.Chance(0.34) {
+				fl.View = r3.PickS([]string{"year", "ym"})
+			}
 			pos := r2.Intn(len(s.History))
 			st := spec.HStep{Flood: fl, Why: "flood"}
 			s.History = append(s.History[:pos:pos], append([]spec.HStep{st}, s.History[pos:]...)...)
